@@ -6,6 +6,7 @@ Import ListNotations.
 From Verif Require Import Val Tokenizer Expand MacroSpec ExpandProofs.
 From Coq Require Import ZArith.
 From Verif Require Import IfScan MacroLang Engine MacroPrint EngineProofs.
+From Verif Require Scope Context.
 Local Open Scope N_scope.
 
 (* M1: for every body and every argument vector, expandDef yields the body with each #k replaced by the k-th actual
@@ -196,3 +197,20 @@ Example C02_engine_example_let :
   (exists e, den 100 p = Ok e [1; 2; 1]%Z) /\
   (exists st T, run 300 (init (print p)) [] = Done st T /\ text_of T = words_text [1; 2; 1]%Z).
 Proof. vm_compute. repeat split; eexists; try eexists; repeat split. Qed.
+
+(* the context of the engine refines the Model of plasTeX/Context.py proved for C04 (Model/Context.v): for every injective coding
+   of macro names by numbers and every coding of meanings by C04's abstract values that sends the unrecognized class of a name to
+   VUnrec of its code, lookup / __getitem__ / push() / pop() / addLocal / addGlobal of the engine are Context.v's operations on the
+   abstracted state (no object frames, no category changes: the part of Context.v the engine fragment uses).  So C04's theorems
+   (innermost binding wins, a balanced group restores the enclosing frames, local dies / global survives) speak about the engine. *)
+Theorem C02_engine_context_refines_C04 :
+  forall (cn : list N -> N) (cv : Engine.meaning -> Scope.value),
+    (forall a b, cn a = cn b -> a = b) -> (forall k, cv (MUnrec k) = Scope.VUnrec (cn k)) ->
+    forall (s : Engine.state) (k : list N) (v : Engine.meaning),
+      Context.lookup (abs_state cn cv s) (cn k) = option_map cv (Engine.lookup s k) /\
+      Context.getitem (cn k) (abs_state cn cv s) = (abs_state cn cv (fst (getitem k s)), cv (snd (getitem k s))) /\
+      abs_state cn cv (push_frame s) = Context.push None (abs_state cn cv s) /\
+      abs_state cn cv (pop_frame s) = Context.pop None (abs_state cn cv s) /\
+      abs_state cn cv (add_local k v s) = Context.add_local (cn k) (cv v) (abs_state cn cv s) /\
+      abs_state cn cv (add_global k v s) = Context.add_global (cn k) (cv v) (abs_state cn cv s).
+Proof. exact context_refines. Qed.
